@@ -38,8 +38,8 @@ REACH = [
 PLAN = {
     "quick": {"shards": 8, "cases": 90, "timeout_s": 900, "min_evaluations": 4000,
               "min_counters": {"rule_outcomes_checked": 60000, "responses_parsed": 4000, "over_limit_stubs_checked": 300}},
-    "thorough": {"shards": 16, "cases": 2000, "timeout_s": 3300, "min_evaluations": 200000,
-                 "min_counters": {"rule_outcomes_checked": 3000000}},
+    "thorough": {"shards": 16, "cases": 800, "timeout_s": 3300, "min_evaluations": 100000,
+                 "min_counters": {"rule_outcomes_checked": 1200000}},
 }
 _UID = itertools.count()
 OUTCOMES = ["fail", "fail", "response", "pass", "pass", "info", "fingerprint", "metadata", "metadata_key", "none", "nonresp",
